@@ -7,6 +7,7 @@ import contextlib
 import hashlib
 import io
 import json
+import warnings
 import shutil
 import zipfile
 
@@ -75,6 +76,12 @@ def make_input(path, d, sibling, extra="plain"):
                 0, 1, n).astype(np.float32), **layout(d, n))
         elif extra == "defective-aspect":
             ev.create_dataset("aspect", data=np.full(n, 7.0), **layout(d, n))
+        elif extra == "nan-values":
+            # invalid values in a stored feature (and no stored summaries:
+            # this file is not written by dclab)
+            data = gen.scalar("userdef3", ids)
+            data[::3] = np.nan
+            ev.create_dataset("userdef3", data=data, **layout(d, n))
         elif extra == "unknown-feature":
             ev.create_dataset("peter", data=np.arange(n, dtype=float),
                               **layout(d, n))
@@ -192,7 +199,8 @@ def compare(pin, pout, task, stripped, out, first, notcarried=()):
                 out.append(("feature missing after %s" % task, name))
                 continue
             x, y = a["events"][name][:], b["events"][name][:]
-            if x.dtype != y.dtype or not np.array_equal(x, y):
+            if x.dtype != y.dtype or not np.array_equal(
+                    x, y, equal_nan=x.dtype.kind == "f"):
                 out.append(("feature values differ after %s (%s)" % (
                     task, "scalar" if x.ndim == 1 else "image"), name))
             for k in a["events"][name].attrs:
@@ -270,6 +278,22 @@ def compare_dclab(pin, pout, task, stripped, out):
                     task, "stored" if f in a.features_innate else
                     "basin-provided" if f in a.features_basin
                     else "computed"), f))
+                continue
+            # what the feature says about itself (minimum, maximum, mean)
+            fa, fb = a[f], b[f]
+            if f in a.features_innate and f in b.features_innate and all(
+                    hasattr(o, m) for o in (fa, fb)
+                    for m in ("min", "max", "mean")):
+                with np.errstate(all="ignore"), warnings.catch_warnings():
+                    warnings.simplefilter("ignore")
+                    sa = (fa.min(), fa.max(), fa.mean())
+                    sb = (fb.min(), fb.max(), fb.mean())
+                if not np.allclose(np.asarray(sa, dtype=float),
+                                   np.asarray(sb, dtype=float), rtol=1e-12,
+                                   atol=0, equal_nan=True):
+                    out.append(("reported minimum/maximum/mean of a stored "
+                                "feature differ after %s" % task,
+                                "%s: %s -> %s" % (f, sa, sb)))
         if not task.startswith("condense"):
             for f in ("image", "mask"):
                 if f not in b or not all(np.array_equal(a[f][i], b[f][i])
